@@ -1,12 +1,11 @@
 (* Tree/RefsProofsOps.v — C05, assembly.
    [P] C05_inv_partial      every operation outside Known04/Known05 (findings) and Pending05 keeps Inv05 (given Inv04)
    [P] C05_history_partial  ... along every history (Inv04 /\ Inv05 together)
-   Pending05 (constructor list): OpCopy OpCopyAt OpMove OpMoveAt OpRemove OpRemoveKind OpSetItemName OpRemoveFile
-   OpRemoveFromFile. *)
+   Pending05 (constructor list): OpCopy OpCopyAt OpMove OpMoveAt OpSetItemName OpRemoveFile OpRemoveFromFile. *)
 From Coq Require Import PeanoNat Arith.
 From AV Require Import Base.Bytes Base.Outcome Hash.HashModel Tree.Heap Tree.Ops Tree.Script Tree.IndexProofsW
   Tree.Index Tree.IndexProofsBase Tree.IndexProofsAssoc Tree.IndexProofsFrame Tree.IndexProofsAttach
-  Tree.IndexProofsCreate Tree.IndexProofsNamed Tree.IndexProofsEdit Tree.IndexProofsModel Tree.IndexProofs
+  Tree.IndexProofsCreate Tree.IndexProofsNamed Tree.IndexProofsEdit Tree.IndexProofsModel Tree.IndexProofsRemoveOp Tree.IndexProofs
   Tree.Refs Tree.RefsProofsBase Tree.RefsProofs Tree.RefsProofsReport Tree.RefsProofsCreate Tree.RefsProofsEdit.
 Open Scope string_scope.
 Open Scope list_scope.
@@ -73,6 +72,8 @@ Proof.
   - apply welem_inv in H as (r0 & H).
     destruct (e_create_named_shape T check_fn LATEST TK (OpCreateNamedAt h name item pos) w r0 w' HF HI4 HK4 H) as (m & Hs).
     eapply inv05_named_shape; eauto.
+  - apply wunit_inv in H as (r0 & H). eapply C05_remove; eauto.
+  - apply wunit_inv in H as (r0 & H). eapply C05_remove_kind; eauto.
   - apply wunit_inv in H as (r0 & H). eapply C05_set_cdata; eauto.
   - apply wunit_inv in H as (r0 & H). eapply C05_remove_cdata; eauto.
   - apply wunit_inv in H as (r0 & H). eapply C05_insert_citem; eauto.
